@@ -22,6 +22,10 @@ fn main() {
     if std::env::var("VH_VERBOSE_PANIC").is_err() {
         std::panic::set_hook(Box::new(|_| {}));
     }
+    // H2: rollback segment size override (segment roll-over / pruning reachable with small deltas)
+    if let Some(sz) = arg(&args, "--segsize").and_then(|s| s.parse::<u64>().ok()) {
+        nomt::verif_hook::set_rollback_segment_size(sz);
+    }
     match cmd.as_str() {
         "crash-child" => std::process::exit(crash::child(&args)),
         "dump" => std::process::exit(crash::dump(&args)),
@@ -66,6 +70,7 @@ fn main() {
             image::run(seed, cases, &mut sink, &outdir, only)
         }
         "image-leak" => image::scenario_leak(&mut sink, &outdir),
+        "image-prefix-tail" => image::scenario_prefix_tail(&mut sink, &outdir),
         "image-prefix-shrink" => image::scenario_prefix_shrink(&mut sink, &outdir),
         "image-cycles" => {
             let cycles: usize = arg(&args, "--cycles").and_then(|s| s.parse().ok()).unwrap_or(10);
